@@ -102,6 +102,8 @@ func TestSequential(t *testing.T) {
 		next := 0
 		phase := map[string]int{} // per resource: 0 nothing, 1 saw block, 2 saw exit after block, 3 saw pass after that
 		outOfOrder, bigBatch, longFlight := false, false, false
+		mixTypes := rapid.IntRange(0, 2).Draw(t, "mixResourceTypes") == 1
+		c.ClassIf(mixTypes, "mixed-resource-classifications")
 		for i := 0; i < n; i++ {
 			op := rapid.IntRange(0, 5).Draw(t, "op")
 			switch {
@@ -123,6 +125,12 @@ func TestSequential(t *testing.T) {
 				}
 				exp := decide(ms, res, live[res], b)
 				opts := append([]sentinel.EntryOption{sentinel.WithBatchCount(uint32(b))}, chainOpt...)
+				if mixTypes { // the same resource name entered under several classifications and traffic types
+					opts = append(opts, sentinel.WithResourceType(base.ResourceType(rapid.IntRange(0, 6).Draw(t, "resType"))))
+					if rapid.Bool().Draw(t, "inbound") {
+						opts = append(opts, sentinel.WithTrafficType(base.Inbound))
+					}
+				}
 				if userSlot && rapid.IntRange(0, 2).Draw(t, "slotPanics") == 0 {
 					opts = append(opts, sentinel.WithFlag(1))
 				}
